@@ -1,6 +1,7 @@
 import Batteries.Data.List.Perm
 import DEvo.Graph.Ordered
 import DEvo.Graph.Batches
+import DEvo.Generated.Tables
 
 /-! # C09 — execution order respects every dependency
 
@@ -210,5 +211,20 @@ theorem C09_cex_batch_regroup : ¬ C09_batch_order_statement := by
 theorem C09_cex_batch_create_first :
     execOrder [⟨0, .evolution, 0⟩, ⟨1, .create, 1⟩] = [⟨1, .create, 1⟩, ⟨0, .evolution, 0⟩] := by
   decide
+
+/-! ## the current source -/
+
+/-- `DependencyGraph.get_ordered` checks its result and raises (regenerated from the source on
+every run; finding F11 repaired) -/
+theorem C09_source_validates : DEvo.Generated.graphValidates = true := by decide
+
+/-- **the order the current code returns respects every dependency and contains every node, for
+every graph; it exists exactly for the acyclic ones** -/
+theorem C09_current (g : G) :
+    (∀ r, getOrderedE DEvo.Generated.graphValidates g = .ok r → r.length = g.n ∧ DepOrd g r) ∧
+    (Acyclic g → getOrderedE DEvo.Generated.graphValidates g = .ok (getOrdered g)) ∧
+    (¬ Acyclic g → getOrderedE DEvo.Generated.graphValidates g = .error ()) := by
+  rw [C09_source_validates]
+  exact ⟨fun r h => (C09_validated_sound g r h).2, C09_validated_complete g, C09_validated_cycle_reported g⟩
 
 end DEvo.Props.C09
